@@ -20,7 +20,8 @@ func init() {
 			"(P) polling stops: the list call is only reachable through the default arm of a non-blocking select on pollingCtx.Done() whose other arm returns; " +
 			"(W) workers are independent of the polling context: the polling context is used only for Done()/Err() inside pollForNewRequests (never stored, captured or passed on) and the shared *http.Client is not modified there. " +
 			"(P, second part) ListPendingRequests performs exactly one proxy round trip per call, outside any loop, so the cancellation test runs between any two polls. " +
-			"runAdapter hands the polling context to pollForNewRequests and to nothing else.",
+			"runAdapter hands the polling context to pollForNewRequests and to nothing else." +
+			" (S, second part) nothing deferred by main receives, waits or sleeps; (W, second part) the polling context may be handed on only to code that reads it (Err/Value/Deadline).",
 		Assumptions: []string{"os/signal delivers the registered signals; context cancellation is observed by Done()", "log.Fatal terminates the process"},
 		Run:         runC20,
 	})
